@@ -208,6 +208,20 @@ func runC15(c *harness.Case) {
 				op.Val = op.Val[:32]
 			}
 		}
+		if r.Intn(12) == 0 && len(s.keys) > 0 {
+			// a guarded write whose expected revision lies far in the future (a client with a corrupt or foreign
+			// revision): it is refused and must leave the revision generator where it was
+			fut := harness.SeqOp{Kind: []string{"update", "delete"}[r.Intn(2)], Key: s.keys[r.Intn(len(s.keys))], Val: []byte("f"),
+				Exp: a.Dealt() + uint64(1e9)<<uint(r.Intn(30))}
+			out := a.Do(fut)
+			s.hist = append(s.hist, fut.String()+" -> "+out.String())
+			if out.Err == "" && out.Succeeded {
+				c.Violatef("C15 write-with-future-expectation-succeeded", s.witness(), "%s succeeded", fut)
+				return
+			}
+			a.WaitCommitted(a.Dealt(), 30*time.Second)
+			c.Stat("refused_writes_with_a_future_expected_revision", 1)
+		}
 		if !s.write(op, "C15") {
 			return
 		}
